@@ -69,9 +69,20 @@ HTML_LINES = ["<html>", "  <body class=\"c\">", "    <p>text あ</p>", "\t<br/>"
 TEXT_LINES = ["plain words here", "あいうえおかきくけこさしすせそ", "", " lead", "trail  ", "a" * 50, "w " * 30, "\tt",
               "x", "", "中" * 30, "😀😀 emoji"]
 POOLS = [PY_LINES, JSON_LINES, HTML_LINES, TEXT_LINES, PY_LINES]
+# whitespace that is NOT the ASCII space: no-break space, em space, ideographic (double-width) space.
+# Used as indentation, as whole lines and inside lines.  (U+2028/U+2029/U+0085 etc. are line boundaries
+# for str.splitlines but not for rich, which splits on "\n" only: kept out, see notes.)
+WS_LINES = ["\u3000\u3000b = '\u3000'", "\u00a0\u00a0z = 2", "\u00a0", "    \u2003k = i", "\u3000", "  \u00a0", "\u2003\u2003",
+            "    \u00a0", "\u3000  x", "  \u3000y = 1", "    m = i\u00a0", "\u2003", "        \u3000deep", "a\u00a0b\u3000c"]
 
 
-def rsource(rng, lexer_id, maxlines=12):
+def rsource(rng, lexer_id, maxlines=12, ws=False):
+    if ws:   # ordinary indented code mixed with lines that use other whitespace
+        n = rng.choice([2, 3, 5, 8])
+        lines = [rng.choice(WS_LINES) if rng.random() < 0.45 else rng.choice(PY_LINES + ["", "    ", "        q = 0"])
+                 for _ in range(n)]
+        lines = [""] * rng.choice([0, 0, 1, 2]) + lines + [rng.choice(["", "\u00a0", "\u3000"])] * rng.choice([0, 0, 1, 2])
+        return "\n".join(lines) + ("\n" if rng.random() < 0.7 else "")
     shape = rng.random()
     if shape < 0.04:
         return ""
@@ -111,16 +122,18 @@ def rrange(rng, n):
 
 def render_case(rng):
     lexer_id = rng.randrange(len(LEXERS))
-    code = rsource(rng, lexer_id, rng.choice([6, 12, 30]))
+    ws = rng.random() < 0.12
+    code = rsource(rng, lexer_id, rng.choice([6, 12, 30]), ws=ws)
     n = code.count("\n") + 1
-    ln = 1 if rng.random() < 0.75 else 0
+    ln = 1 if (ws or rng.random() < 0.75) else 0
     start = rng.choice([1, 1, 1, 0, 2, 5, 9, 10, 95, 98, 99, 100, 994, 9990])
     rg = rrange(rng, n)
     lo = start + (max(0, rg[0] - 1) if rg else 0)
     hl = sorted(set(rng.randint(lo - 1, lo + n + 1) for _ in range(rng.choice([0, 0, 1, 2, 4]))))
-    ww = 1 if rng.random() < 0.3 else 0
+    # the word-wrap model knows the ASCII space only (Text.wrap's \\s is C02's business): no wrapping there
+    ww = 1 if (rng.random() < 0.3 and not ws) else 0
     tab = rng.choice([4, 4, 4, 8, 2, 1, 3])
-    guides = 1 if rng.random() < 0.25 else 0
+    guides = 1 if rng.random() < (0.8 if ws else 0.25) else 0
     transparent = rng.randrange(2)
     gw = (len(str(start + code.count("\n"))) + 3) if ln else 1
     cwopt = [] if rng.random() < 0.6 else [rng.choice([2, 3, 5, 8, 13, 20, 40, 88])]
@@ -135,43 +148,104 @@ FILLER = ["    # note あ", "    y = x + 1", "", "    ", "    if x:\n        y =
 TOP = ["# header", "", "import os", "A = 1", "", "# コメント", "B = [1, 2, 3]", "\t", "X = '" + "q" * 100 + "'"]
 
 
-def tb_case(rng):
-    """a module with a function that raises at a chosen line, called from a chosen line"""
-    lines = [""] * rng.choice([0, 0, 1, 2, 3, 5])
-    lines += [rng.choice(TOP) for _ in range(rng.choice([0, 1, 3, 8, 12]))]
-    frames = []
-    if rng.random() < 0.75:
-        lines.append("def f(x):")
-        lines += [rng.choice(FILLER) for _ in range(rng.choice([0, 1, 2, 5, 9]))]
-        lines.append(rng.choice(["    raise ValueError('boom')", "    return 1 // (x - x)", "    raise KeyError(x)  # " + "c" * 90]))
-        lr = len(lines)
-        lines += [rng.choice(FILLER) for _ in range(rng.choice([0, 0, 2, 4]))]
-        lines += [""] * rng.choice([0, 1, 2, 4])
-        lines += [rng.choice(TOP) for _ in range(rng.choice([0, 1, 5]))]
-        lines.append(rng.choice(["f(1)", "result = f(A if 'A' in dir() else 2)"]))
-        frames = [len(lines), lr]
+GEN_NAME = "<c17-generated>"
+
+
+def _indent(block, n):
+    return [(" " * n + l) if l.strip() else l for l in block]
+
+
+def _noise(rng, indent):
+    """statement-neutral lines at the given indentation"""
+    pool = ["# note あ", "", "", " " * 3, "# 中文 " + "c" * rng.choice([3, 60, 95]), "_ = [1, 2,\t3]", "_ = 'wide 😀'"]
+    out = []
+    for _ in range(rng.choice([0, 0, 1, 2, 4])):
+        l = rng.choice(pool)
+        out.append((" " * indent + l) if l.strip() else l)
+    return out
+
+
+def tb_module(rng):
+    """-> (source, mode).  A call chain inner <- wrappers <- top; every wrapper is a frame that goes on
+    executing after the exception passed through it (finally block, except + re-raise, nested
+    try/finally, with-less cleanup) or a plain call.  mode 0: the module raises when executed;
+    mode 1: catcher() stores sys.exc_info(), runs more statements and returns it (rendered later)."""
+    L = [""] * rng.choice([0, 0, 1, 2, 3, 7])
+    L += [rng.choice(TOP) for _ in range(rng.choice([0, 1, 3, 8]))]
+    L += ["import sys"]
+    L += ["def inner(x):"] + _noise(rng, 4)
+    L += [rng.choice(["    raise ValueError('boom')", "    return 1 // (x - x)", "    raise ValueError(x)  # " + "c" * 90])]
+    L += _noise(rng, 4) + [""] * rng.choice([0, 1, 2])
+    prev = "inner"
+    for i in range(rng.choice([0, 1, 2, 3, 4])):
+        name = "w%d" % i
+        kind = rng.choice(["plain", "finally", "reraise", "nested", "except_as"])
+        L += ["def %s(x):" % name] + _noise(rng, 4)
+        if kind == "plain":
+            L += ["    r = %s(x)" % prev, "    return r"]
+        elif kind == "finally":
+            L += ["    try:"] + _noise(rng, 8) + ["        %s(x)" % prev, "    finally:"] + _noise(rng, 8)
+            L += ["        done = True", "        more = 1"]
+        elif kind == "reraise":
+            L += ["    try:", "        %s(x)" % prev, "    except ValueError:", "        note = 'seen'"] + _noise(rng, 8) + ["        raise"]
+        elif kind == "except_as":
+            L += ["    try:", "        %s(x)" % prev, "    except (ValueError, ZeroDivisionError) as err:"] + _noise(rng, 8)
+            L += ["        x = x + 1", "        raise err"]
+        else:
+            L += ["    try:", "        try:", "            %s(x)" % prev, "        finally:", "            a = 1"] + _noise(rng, 12)
+            L += ["    finally:", "        b = 2", "        c = 3"]
+        L += _noise(rng, 4) + [""] * rng.choice([0, 1, 3])
+        prev = name
+    mode = 1 if rng.random() < 0.45 else 0
+    if mode == 1:
+        L += ["def catcher():", "    try:"] + _noise(rng, 8) + ["        %s(1)" % prev]
+        L += ["    except (ValueError, ZeroDivisionError):", "        saved = sys.exc_info()"] + _noise(rng, 4)
+        L += ["    later = 1", "    more = later + 1", "    return saved"]
     else:
-        lines.append(rng.choice(["raise RuntimeError('top')", "Q = 1 // 0"]))
-        frames = [len(lines)]
-    lines += [rng.choice(TOP) for _ in range(rng.choice([0, 0, 1, 3, 7]))]
-    lines += [""] * rng.choice([0, 0, 1, 3])
-    # multi-line fillers: recompute the frame lines
-    flat = []
-    fmap = {}
-    for i, l in enumerate(lines, 1):
-        fmap[i] = len(flat) + 1
-        flat += l.split("\n")
-    frames = [fmap[x] for x in frames]
-    src = "\n".join(flat)
+        if rng.random() < 0.4:
+            L += ["try:", "    %s(1)" % prev, "finally:", "    CLEAN = 1", "    MORE = 2"]
+        else:
+            L += [rng.choice(["%s(1)" % prev, "result = %s(A if 'A' in dir() else 2)" % prev])]
+    L += [rng.choice(TOP) for _ in range(rng.choice([0, 0, 1, 3, 7]))]
+    L += [""] * rng.choice([0, 0, 1, 3])
+    src = "\n".join(L)
     if rng.random() < 0.8:
         src += "\n"
-    idx = rng.randrange(len(frames))
+    return src, mode
+
+
+def run_generated(src, filename, mode):
+    """execute a generated module with the standard library only -> (exc_type, exc_value, tb)"""
+    import sys as _sys
+    ns = {"__name__": "c17_generated"}
+    code = compile(src, filename, "exec")
+    if mode == 1:
+        exec(code, ns)
+        return ns["catcher"]()
+    try:
+        exec(code, ns)
+    except Exception:
+        return _sys.exc_info()
+    raise AssertionError("generated module did not raise")
+
+
+def oracle_linenos(src, mode):
+    """the failing line of every frame of the generated file, from the interpreter's own traceback
+    (traceback.extract_tb, i.e. tb_lineno) -- independent of rich"""
+    import traceback as std_tb
+    et, ev, tb = run_generated(src, GEN_NAME, mode)
+    return [fs.lineno for fs in std_tb.extract_tb(tb) if fs.filename == GEN_NAME]
+
+
+def tb_cases(rng):
+    """one case per frame of the generated file: every frame of the rendered traceback is checked"""
+    src, mode = tb_module(rng)
+    linenos = oracle_linenos(src, mode)
     extra = rng.choice([3, 3, 0, 1, 2, 5, 20])
-    ww = 0
     transparent = 1 if rng.random() < 0.7 else 0
     guides = 1 if rng.random() < 0.6 else 0
     W = rng.choice([100, 100, 120, 60, 45, 80])
-    return ("tbframe", [s2t(src), 0, frames[idx], extra, ww, transparent, guides, W, idx])
+    return [("tbframe", [s2t(src), 0, no, extra, 0, transparent, guides, W, idx, mode]) for idx, no in enumerate(linenos)]
 
 
 def generate(rng, tier):
@@ -183,8 +257,8 @@ def generate(rng, tier):
         lexer_id = rng.randrange(len(LEXERS))
         code = rsource(rng, lexer_id)
         cases.append(("highlight", [s2t(code), lexer_id, rrange(rng, code.count("\n") + 1)]))
-    for _ in range(150 * k):
-        cases.append(tb_case(rng))
+    for _ in range(70 * k):
+        cases += tb_cases(rng)
     for n in list(range(0, 120)) + [rng.randint(0, 10 ** 7) for _ in range(100 * k)] + [999, 1000, 9999, 10000, -1, -10, -123]:
         cases.append(("show_Z", n))
     for _ in range(100 * k):
@@ -246,28 +320,25 @@ def impl(op, arg):
 
 
 def _tbframe(arg):
-    import shutil, sys as _sys, tempfile
+    import shutil, tempfile
     from rich.traceback import Traceback
-    src, _lex, lineno, extra, ww, transparent, guides, W, idx = arg
+    src, _lex, lineno, extra, ww, transparent, guides, W, idx = arg[:9]
+    mode = arg[9] if len(arg) > 9 else 0
     d = tempfile.mkdtemp(prefix="c17_", dir="/tmp")
     try:
         path = os.path.join(d, "m.py")
         with open(path, "w", encoding="utf-8") as f:
             f.write(t2s(src))
+        et, ev, tb = run_generated(t2s(src), path, mode)
+        # mode 1: the frames of the chain are still alive and have executed further statements
+        t = Traceback.from_exception(et, ev, tb, width=W, extra_lines=extra, theme=THEMES[transparent],
+                                     word_wrap=bool(ww), indent_guides=bool(guides))
+        c = _console(W + 10)
         try:
-            exec(compile(t2s(src), path, "exec"), {"__name__": "c17_generated"})
-        except Exception:
-            et, ev, tb = _sys.exc_info()
-            t = Traceback.from_exception(et, ev, tb, width=W, extra_lines=extra, theme=THEMES[transparent],
-                                         word_wrap=bool(ww), indent_guides=bool(guides))
-            c = _console(W + 10)
-            try:
-                c.print(t)
-            except RuntimeError:      # rendering the traceback itself raised: the model says Crash
-                return [lineno, -1]
-            text = c.file.getvalue()
-        else:
-            raise AssertionError("generated module did not raise")
+            c.print(t)
+        except RuntimeError:      # rendering the traceback itself raised: the model says Crash
+            return [lineno, -1]
+        text = c.file.getvalue()
     finally:
         shutil.rmtree(d, ignore_errors=True)
     # split the panel into frames of our file: header "│ <path>:<lineno> in <name>", blank, code block
